@@ -225,6 +225,11 @@ def form_augmented_domain(domain, acquisition_function=None, task_cost_populated
 class GpNextPointsCategorical(GPView):
   view_name = "gp_next_points_categorical"
 
+  @property
+  def pending_points_enter_as_lies(self):
+    # Parallel EI is never used for multitask experiments (see view), so their pending points must enter as lies
+    return super().pending_points_enter_as_lies or bool(self.task_cost_populated)
+
   def form_af_optimization_domain(self, acquisition_function):
     augmented_one_hot_domain = form_augmented_domain(
       domain=self.domain,
